@@ -330,7 +330,7 @@ impl Check for C04Check {
     fn components(&self) -> Value {
         json!({"real": ["Chunk::try_from", "PwbPacket::try_from(Vec<Chunk>)", "PwbV2Packet::try_from(Vec<Chunk>)", "PwbPacket::try_from(&[u8])"],
                "model": ["PWB v2 payload encoder", "MCP chunker", "network (order / loss / duplication / foreign / flag / size faults)", "reference reassembler"],
-               "simulated": [], "stub": []})
+               "simulated": ["allocator limit: the processes run under a 4 GiB address-space limit, so a wild allocation fails (abort) instead of being over-committed"], "stub": []})
     }
     fn count(&self, tier: Tier) -> u64 {
         match tier {
